@@ -70,7 +70,7 @@ var profC02 = &hist.Profile{
 	Prelude: func(t *rapid.T, g *hist.Gen) {
 		preludeTopics(2)(t, g)
 		for i, s := range []string{"s0", "s1"} {
-			cfg := g.GenCfg(s)
+			cfg := g.GenCfg("t0")
 			cfg.DLTopic, cfg.MaxAttempts = "", 0
 			cfg.Filter = []string{"", `attributes:x`}[i]
 			g.R.Step(hist.Op{K: hist.OpCreateSub, S: s, T: "t0", Cfg: &cfg})
@@ -104,7 +104,7 @@ var profC03 = &hist.Profile{
 	Rets: []time.Duration{0, 10 * minute}, Foreign: true, NoSelfDL: true,
 	Prelude: func(t *rapid.T, g *hist.Gen) {
 		preludeTopics(2)(t, g)
-		cfg := g.GenCfg("s0")
+		cfg := g.GenCfg("t0")
 		g.R.Step(hist.Op{K: hist.OpCreateSub, S: "s0", T: "t0", Cfg: &cfg})
 	},
 }
@@ -138,7 +138,7 @@ var profC04 = &hist.Profile{
 	AdvScales: []time.Duration{ms, 100 * ms, sec, 5 * sec, 11500 * ms, minute, 11 * minute},
 	Prelude: func(t *rapid.T, g *hist.Gen) {
 		preludeTopics(1)(t, g)
-		cfg := g.GenCfg("s0")
+		cfg := g.GenCfg("t0")
 		g.R.Step(hist.Op{K: hist.OpCreateSub, S: "s0", T: "t0", Cfg: &cfg})
 		g.R.Step(hist.Op{K: hist.OpPublish, T: "t0", Msgs: []hist.MsgSpec{{Data: `{"i":0}`}}})
 	},
@@ -170,7 +170,7 @@ var profC06 = &hist.Profile{
 	Rets: []time.Duration{0, hour}, NoSelfDL: true,
 	Prelude: func(t *rapid.T, g *hist.Gen) {
 		preludeTopics(3)(t, g)
-		cfg := g.GenCfg("s0")
+		cfg := g.GenCfg("t0")
 		cfg.DLTopic = "t1"
 		cfg.MaxAttempts = rapid.SampledFrom([]int{1, 2, 3}).Draw(t, "n0")
 		g.R.Step(hist.Op{K: hist.OpCreateSub, S: "s0", T: "t0", Cfg: &cfg})
@@ -205,7 +205,7 @@ var profC13 = &hist.Profile{
 	AdvScales: []time.Duration{ms, 100 * ms, sec, 5 * sec, 11500 * ms, minute, hour},
 	Prelude: func(t *rapid.T, g *hist.Gen) {
 		preludeTopics(1)(t, g)
-		cfg := g.GenCfg("s0")
+		cfg := g.GenCfg("t0")
 		g.R.Step(hist.Op{K: hist.OpCreateSub, S: "s0", T: "t0", Cfg: &cfg})
 		cfg2 := cfg
 		g.R.Step(hist.Op{K: hist.OpCreateSub, S: "s1", T: "t0", Cfg: &cfg2})
@@ -241,7 +241,7 @@ var profC14 = &hist.Profile{
 	Delays: []time.Duration{0, 100 * ms, 5 * sec, minute, hour}, TargetExpiry: true,
 	Prelude: func(t *rapid.T, g *hist.Gen) {
 		preludeTopics(1)(t, g)
-		cfg := g.GenCfg("s0")
+		cfg := g.GenCfg("t0")
 		g.R.Step(hist.Op{K: hist.OpCreateSub, S: "s0", T: "t0", Cfg: &cfg})
 	},
 }
